@@ -56,11 +56,24 @@ def diff_snapshots(sa, sb, rtol=1e-7, atol=1e-9, name_map=None, reversed_names=(
     n = 0
     maxdev = 0.0
     col_atol = col_atol or {}
+    # Flows whose friction loss is below the round-off of the pressures (1e-12 bar) are not determined by
+    # the equations (flat zero-flow loops): their magnitude is noise, and so is every flow of that size.
+    noise = 0.0
+    for name, ra in sa.get("pipe", {}).items():
+        nb = (name_map or {}).get(name, name)
+        rb = sb.get("pipe", {}).get(nb) if nb is not None else None
+        if rb is None or "dp_friction_loss_bar" not in ra:
+            continue
+        fa, fb = ra["dp_friction_loss_bar"], rb["dp_friction_loss_bar"]
+        if not (math.isnan(fa) or math.isnan(fb)) and abs(fa) <= 1e-12 and abs(fb) <= 1e-12:
+            noise = max(noise, abs(ra["mdot_from_kg_per_s"]), abs(rb["mdot_from_kg_per_s"]))
+    zero_flow = max(zero_flow, 2 * noise)
     for t, rows in sa.items():
         if only_tables is not None and t not in only_tables:
             continue
         if t not in sb:
-            diffs.append((t, None, None, "table missing in B", None, None))
+            if any(name not in skip_names and (name_map or {}).get(name, name) is not None for name in rows):
+                diffs.append((t, None, None, "table missing in B", None, None))
             continue
         for name, ra in rows.items():
             if name in skip_names:
@@ -78,6 +91,8 @@ def diff_snapshots(sa, sb, rtol=1e-7, atol=1e-9, name_map=None, reversed_names=(
             for c, va in ra.items():
                 if c in skip_cols or (noflow and c in ("lambda", "reynolds")):
                     continue
+                if noflow and noise and (c in FLOW_PROPORTIONAL or c.startswith("mdot_")):
+                    continue
                 cb = SWAP.get(c, c) if rev else c
                 if cb not in rb:
                     continue
@@ -87,12 +102,19 @@ def diff_snapshots(sa, sb, rtol=1e-7, atol=1e-9, name_map=None, reversed_names=(
                 elif rev and c.startswith("mdot_"):
                     # mdot_from(A) = flow entering at A's from end = -(flow entering at B's from end) = mdot_to(B)
                     pass
+                if c == "dp_friction_loss_bar":   # signed with the flow for liquids, absolute for gases
+                    va, vb = abs(va), abs(vb)
                 n += 1
                 a_tol = col_atol.get(c, atol)
                 r_tol = rtol
                 if c in FLOW_PROPORTIONAL and "mdot_from_kg_per_s" in ra:
                     # flows that agree within atol carry that absolute slack into everything proportional to them
                     r_tol = rtol + 4 * atol / max(abs(ra["mdot_from_kg_per_s"]), 1e-300)
+                if c == "v_mean_m_per_s" and "normfactor_from" in ra and \
+                        abs(ra["p_from_bar"] - ra["p_to_bar"]) <= 3e-5 * (abs(ra["p_to_bar"]) + 1.1):
+                    # gas branches whose end pressures agree within 1e-5 (relative) use the from-pressure as
+                    # mean pressure (documented switch in the kernels): direction dependent at that level
+                    r_tol = max(r_tol, 3e-5)
                 if not close(va, vb, r_tol, a_tol):
                     diffs.append((t, name, c, "A=%r B=%r" % (va, vb), va, vb))
                 elif not (math.isnan(va) or va == vb) and max(abs(va), abs(vb)) > 1e3 * a_tol:
